@@ -171,3 +171,108 @@ have s2 : ∑ k ∈ Finset.Ico (0:ℤ) N, (starRingEnd ℂ) (Ld m d k) * (starRi
 rw [s1, s2]
 by_cases h1 : b = d <;> by_cases h2 : a = c <;> simp [h1, h2, eq_comm] <;> ring
 """)
+
+
+lemma("sum_split_at",
+      types={"N": "int", "n": "int", "F": "arr1"},
+      hyps=[("hn", "0 <= n and n < N")],
+      concl="Sum(a, range(0, N), F[a]) == F[n] + Sum(a, range(0, N), ite(a == n, 0, F[a]))",
+      proof="""
+have hmem : n ∈ Finset.Ico (0:ℤ) N := Finset.mem_Ico.mpr ⟨hn.1, hn.2⟩
+rw [← Finset.add_sum_erase _ _ hmem, ← Finset.add_sum_erase (Finset.Ico (0:ℤ) N) (fun a => if a = n then (0:ℝ) else F a) hmem]
+simp only [if_true, zero_add]
+congr 1
+apply Finset.sum_congr rfl
+intro x hx
+have hne : x ≠ n := (Finset.mem_erase.mp hx).1
+simp [hne]
+""")
+lemma("sum_split_at_cx",
+      types={"N": "int", "n": "int", "F": "carr1"},
+      hyps=[("hn", "0 <= n and n < N")],
+      concl="Sum(a, range(0, N), F[a]) == F[n] + Sum(a, range(0, N), ite(a == n, 0, F[a]))",
+      proof="""
+have hmem : n ∈ Finset.Ico (0:ℤ) N := Finset.mem_Ico.mpr ⟨hn.1, hn.2⟩
+rw [← Finset.add_sum_erase _ _ hmem, ← Finset.add_sum_erase (Finset.Ico (0:ℤ) N) (fun a => if a = n then (0:ℂ) else F a) hmem]
+simp only [if_true, zero_add]
+congr 1
+apply Finset.sum_congr rfl
+intro x hx
+have hne : x ≠ n := (Finset.mem_erase.mp hx).1
+simp [hne]
+""")
+lemma("sum_zero",
+      types={"lo": "int", "hi": "int", "F": "arr1"},
+      hyps=[("h", "forall(i, range(lo, hi), F[i] == 0)")],
+      concl="Sum(i, range(lo, hi), F[i]) == 0",
+      proof="""
+apply Finset.sum_eq_zero
+intro i hi'
+exact h i (Finset.mem_Ico.mp hi').1 (Finset.mem_Ico.mp hi').2
+""")
+SUM_AXIOM_LEMMAS.append("sum_zero")
+
+
+lemma("congruence_symmetric",
+      types={"N": "int", "S": "arr2", "S1": "arr2", "P": "arr2", "M": "arr2"},
+      hyps=[("hS1", "forall((i, k), (range(0, N), range(0, N)), S1[i,k] == S[k,i])"),
+            ("hP", "forall((k, l), (range(0, N), range(0, N)), P[k,l] == P[l,k])"),
+            ("hM", "forall((i, j), (range(0, N), range(0, N)), M[i,j] == Sum(k, range(0, N), S1[i,k]*Sum(l, range(0, N), P[k,l]*S[l,j])))")],
+      concl="forall((i, j), (range(0, N), range(0, N)), M[i,j] == M[j,i])",
+      proof="""
+intro i j hi0 hiN hj0 hjN
+rw [hM i j hi0 hiN hj0 hjN, hM j i hj0 hjN hi0 hiN]
+have e1 : ∑ k ∈ Finset.Ico (0:ℤ) N, S1 i k * ∑ l ∈ Finset.Ico (0:ℤ) N, P k l * S l j
+        = ∑ k ∈ Finset.Ico (0:ℤ) N, ∑ l ∈ Finset.Ico (0:ℤ) N, S k i * P k l * S l j := by
+  apply Finset.sum_congr rfl
+  intro k hk
+  have hk' := Finset.mem_Ico.mp hk
+  rw [hS1 i k hi0 hiN hk'.1 hk'.2, Finset.mul_sum]
+  apply Finset.sum_congr rfl; intros; ring
+have e2 : ∑ k ∈ Finset.Ico (0:ℤ) N, S1 j k * ∑ l ∈ Finset.Ico (0:ℤ) N, P k l * S l i
+        = ∑ k ∈ Finset.Ico (0:ℤ) N, ∑ l ∈ Finset.Ico (0:ℤ) N, S k j * P k l * S l i := by
+  apply Finset.sum_congr rfl
+  intro k hk
+  have hk' := Finset.mem_Ico.mp hk
+  rw [hS1 j k hj0 hjN hk'.1 hk'.2, Finset.mul_sum]
+  apply Finset.sum_congr rfl; intros; ring
+rw [e1, e2, Finset.sum_comm]
+apply Finset.sum_congr rfl
+intro l hl
+apply Finset.sum_congr rfl
+intro k hk
+have hk' := Finset.mem_Ico.mp hk
+have hl' := Finset.mem_Ico.mp hl
+rw [hP k l hk'.1 hk'.2 hl'.1 hl'.2]; ring
+""")
+
+
+# ---- time-dependent Redfield tensor: the code uses K where the formula has K^T; with K symmetric both agree --------
+REL_FORM_CODE = ("forall((a, b, c, d), (range(0, N), range(0, N), range(0, N), range(0, N)), "
+                 "R[a,b,c,d] == Sum(m, range(0, Nb), K[m,a,c]*Ld[m,d,b] + L[m,a,c]*K[m,d,b] "
+                 "- ite(b == d, Sum(k, range(0, N), K[m,a,k]*L[m,k,c]), 0) "
+                 "- ite(a == c, Sum(k, range(0, N), Ld[m,d,k]*K[m,k,b]), 0)))")
+K_SYMM = "forall((m, i, j), (range(0, Nb), range(0, N), range(0, N)), K[m,i,j] == K[m,j,i])"
+_GENERIC = lean.clause_to_lean(REL_FORM, REL_TYPES)
+_TO_GENERIC = """
+have hR : %s := by
+  intro a b c d ha0 haN hb0 hbN hc0 hcN hd0 hdN
+  rw [hRl a b c d ha0 haN hb0 hbN hc0 hcN hd0 hdN]
+  apply Finset.sum_congr rfl
+  intro m hm
+  have hm' := Finset.mem_Ico.mp hm
+  rw [hsym m d b hm'.1 hm'.2 hd0 hdN hb0 hbN]
+  have e : ∑ k ∈ Finset.Ico (0:ℤ) N, K m a k * L m k c = ∑ k ∈ Finset.Ico (0:ℤ) N, K m k a * L m k c := by
+    apply Finset.sum_congr rfl
+    intro k hk
+    have hk' := Finset.mem_Ico.mp hk
+    rw [hsym m a k hm'.1 hm'.2 ha0 haN hk'.1 hk'.2]
+  rw [e]
+""" % _GENERIC
+lemma("redfield_td_trace", types=REL_TYPES, hyps=[("hRl", REL_FORM_CODE), ("hsym", K_SYMM)],
+      concl=LEMMAS["redfield_trace"]["concl"],
+      proof=_TO_GENERIC + LEMMAS["redfield_trace"]["proof"])
+lemma("redfield_td_herm", types=REL_TYPES,
+      hyps=[("hRl", REL_FORM_CODE), ("hsym", K_SYMM)] + LEMMAS["redfield_herm"]["hyps"][1:],
+      concl=LEMMAS["redfield_herm"]["concl"],
+      proof=_TO_GENERIC + LEMMAS["redfield_herm"]["proof"])
